@@ -29,7 +29,7 @@ def main():
         groups = {}
         for c in cases:
             p = c["prog"]
-            groups.setdefault((p["mode"], p["deps"], p["async"], len(p["params"])), []).append(c)
+            groups.setdefault((p["mode"], p["deps"], p["async"], len(p["params"]), p.get("stamp", False)), []).append(c)
         sel = []
         for k in sorted(groups, key=str):
             g = groups[k]
